@@ -25,6 +25,18 @@ theorem lstsq_certificate {m n : ℕ} (A : Matrix (Fin m) (Fin n) ℝ) (b : Fin 
     (h : Aᵀ *ᵥ (A *ᵥ x - b) = 0) : ∀ y, nrm2 (A *ᵥ x - b) ≤ nrm2 (A *ᵥ y - b) :=
   ls_certificate A b x h
 
+/-- the certificate is exact: `x` minimises `‖Ay − b‖` IF AND ONLY IF it satisfies the normal equations (so checking
+the certificate on the implementation's answer decides "is a least-squares solution"). -/
+theorem lstsq_certificate_iff {m n : ℕ} (A : Matrix (Fin m) (Fin n) ℝ) (b : Fin m → ℝ) (x : Fin n → ℝ) :
+    (∀ y, nrm2 (A *ᵥ x - b) ≤ nrm2 (A *ᵥ y - b)) ↔ Aᵀ *ᵥ (A *ᵥ x - b) = 0 :=
+  ⟨ls_certificate_converse A b x, ls_certificate A b x⟩
+
+/-- with full column rank the least-squares solution is unique (what `ls.ref` compares LSTSQ against) -/
+theorem lstsq_unique_full_rank {m n : ℕ} (A : Matrix (Fin m) (Fin n) ℝ) (b : Fin m → ℝ)
+    (hfull : ∀ v : Fin n → ℝ, A *ᵥ v = 0 → v = 0) (x y : Fin n → ℝ)
+    (hx : Aᵀ *ᵥ (A *ᵥ x - b) = 0) (hy : Aᵀ *ᵥ (A *ᵥ y - b) = 0) : y = x :=
+  ls_unique_of_full_rank A b hfull x y hx hy
+
 /-- a least-squares solution in the range of `Aᵀ` is THE minimum-norm one: no other least-squares solution is
 shorter, and any of the same length is equal to it. -/
 theorem lstsq_minnorm_unique {m n : ℕ} (A : Matrix (Fin m) (Fin n) ℝ) (b : Fin m → ℝ) (x : Fin n → ℝ)
@@ -104,6 +116,15 @@ theorem chol_fails_iff_not_spd (n : Nat) (A : Nat → Nat → ℝ) (hs : IsSymm 
 theorem chol_info_range (n e : Nat) (A : Nat → Nat → ℝ) (h : chol A n = .error e) : 1 ≤ e ∧ e ≤ n :=
   chol_error_range A n e h
 
+/-- `info` has LAPACK's meaning: for symmetric `A` the leading block of order `info − 1` is positive definite and the
+one of order `info` is not. -/
+theorem chol_info_leading_minor (n e : Nat) (A : Nat → Nat → ℝ) (hs : IsSymm n A) (h : chol A n = .error e) :
+    IsSPD (e - 1) A ∧ ¬ IsSPD e A := by
+  obtain ⟨⟨L, hL⟩, he⟩ := chol_info_meaning A n e h
+  have hr := chol_error_range A n e h
+  refine ⟨(chol_sound A (e - 1) L hL).spd (fun i j hi hj => hs i j (by omega) (by omega)), ?_⟩
+  exact chol_error_not_spd A e e he
+
 /-- forward + back substitution with a Cholesky factor returns `x` with `A x = b` -/
 theorem cholSolve_solves (n : Nat) (A : Nat → Nat → ℝ) (L : Tab2 ℝ) (b : Nat → ℝ) (hs : IsSymm n A)
     (h : chol A n = .ok L) : ∀ i, i < n → ∑ j ∈ range n, A i j * (cholSolve n L.get b).get j = b i :=
@@ -137,6 +158,19 @@ theorem cholesky_forward_spec (n : Nat) (cholEx : (Nat → Nat → ℝ) → (Nat
   · cases hc : choleskyForward cholEx solveK A b with
     | error e => exact ⟨e, rfl⟩
     | ok x => exact absurd (back x hc).1 hn
+
+/-- **batched `Cholesky.forward`** (one `torch.any(info != 0)` assertion for the whole batch): the call returns iff every
+item is positive definite, then every item is solved; one non-PD item makes the whole call raise — a partially wrong
+batch is never returned. -/
+theorem cholesky_forward_batch_spec (n : Nat) (cholEx : (Nat → Nat → ℝ) → (Nat → Nat → ℝ) × Nat)
+    (solveK : (Nat → Nat → ℝ) → (Nat → ℝ) → Tab ℝ) (hK : CholContract n cholEx solveK)
+    (items : List ((Nat → Nat → ℝ) × (Nat → ℝ))) (hs : ∀ it ∈ items, IsSymm n it.1) :
+    ((∃ xs, choleskyForwardBatch cholEx solveK items = .ok xs) ↔ ∀ it ∈ items, IsSPD n it.1) ∧
+    (∀ xs, choleskyForwardBatch cholEx solveK items = .ok xs →
+      xs.length = items.length ∧
+      ∀ k (hk : k < items.length) (hk' : k < xs.length), ∀ i, i < n →
+        ∑ j ∈ range n, (items[k]).1 i j * (xs[k]).get j = (items[k]).2 i) :=
+  choleskyForwardBatch_spec n cholEx solveK hK items hs
 
 /-- the executable kernels run by the driver (`chol`, forward/back substitution; `upper` = either triangle) meet the
 contract — so `cholesky_forward_spec` is not vacuous and the driver's stand-in needs no run-time re-check. -/
@@ -185,6 +219,16 @@ theorem cg_exact_convergence_spd (n : Nat) (tol : ℝ) (maxiter : Option Nat) (A
     (cgForward n tol maxiter A b x0 M).stopped = true ∧ (cgForward n tol maxiter A b x0 M).iter ≤ n ∧
     norm n (fun i => b i - ∑ j ∈ range n, A i j * (cgForward n tol maxiter A b x0 M).x.get j) < tol * norm n b :=
   cg_exact_convergence n tol maxiter A b x0 M hA hM htol hb hbud
+
+/-- **no breakdown before convergence** — on the property's domain (SPD `A`, SPD or no preconditioner) both
+denominators of pass `k` (`rho`, `pᵀAp`) are positive as long as the residuals of passes `0..k` are non-zero: the
+divisions of `CG.forward` are never `x/0` before the loop has converged. (`cgIter` = `k` unconditional passes.) -/
+theorem cg_no_breakdown (n : Nat) (A : Nat → Nat → ℝ) (b : Nat → ℝ) (x0 : Option (Nat → ℝ)) (M : Option (Nat → Nat → ℝ))
+    (hA : IsSPD n A) (hM : ∀ M', M = some M' → IsSPD n M') (k : Nat)
+    (hne : ∀ j, j ≤ k → ∃ i, i < n ∧ (cgIter n A M (cgInit n A b x0) j).r.get i ≠ 0) :
+    0 < cgRho n M (cgIter n A M (cgInit n A b x0) k) ∧
+    0 < dot n (cgP n M (cgIter n A M (cgInit n A b x0) k)).get (cgQ n A M (cgIter n A M (cgInit n A b x0) k)).get :=
+  cg_no_breakdown_model n A b x0 M hA hM k hne
 
 /-- the default budget `10 n` always suffices in exact arithmetic -/
 theorem cg_default_budget_suffices (n : Nat) (tol : ℝ) (A : Nat → Nat → ℝ) (b : Nat → ℝ)
